@@ -76,9 +76,48 @@ example :
     recoverStrict true 40 = 8 ∧ getStrict (recoverStrict true 40) Gen.optStrictBlockChecksum = true ∧
     getStrict (recoverStrict true 32) Gen.optStrictBlockChecksum = false := by decide
 
+/-! ## C08 — a table compaction reads its inputs strictly exactly when `StrictCompaction` is set -/
+
+/-- **`compaction_reader_strict_iff`**.  For every value of `Options.Strict`, the iterators `compaction.newIterator` builds
+over the input tables are strict (`opt.GetStrict(o, ro, StrictReader)`) exactly when the options have
+`StrictCompaction`: a damaged block then stops the compaction with an error instead of being skipped, so a compaction
+never commits an output that lacks a block's entries while deleting the input (C08: no acknowledged write is lost to a
+damaged block). -/
+theorem compaction_reader_strict_iff (o : Nat) :
+    getStrictRO o (compactionRO Gen.optStrictReader o) Gen.optStrictReader = getStrict o Gen.optStrictCompaction := by
+  have h1 : roGetStrict Gen.optStrictOverride Gen.optStrictOverride = true := by decide
+  have h2 : roGetStrict Gen.optStrictOverride Gen.optStrictReader = false := by decide
+  have h3 : roGetStrict (Gen.optStrictOverride ||| Gen.optStrictReader) Gen.optStrictOverride = true := by decide
+  have h4 : roGetStrict (Gen.optStrictOverride ||| Gen.optStrictReader) Gen.optStrictReader = true := by decide
+  unfold getStrictRO compactionRO
+  cases h : getStrict o Gen.optStrictCompaction
+  · simp only [Bool.false_eq_true, if_false, h1, if_true, h2]
+  · simp only [if_true, h3, h4]
+
+/-- with the default options (`Strict` unset) a compaction reads strictly -/
+theorem default_compaction_reader_strict :
+    getStrictRO 0 (compactionRO Gen.optStrictReader 0) Gen.optStrictReader = true := by decide
+
+/-- the wrong constant (`ro.Strict |= opt.StrictCompaction`, seeded change `C08-compaction-iter-not-strict`) makes the
+reader lenient for EVERY option value: damaged blocks are skipped silently -/
+theorem compaction_flag_instead_of_reader_never_strict (o : Nat) :
+    getStrictRO o (compactionRO Gen.optStrictCompaction o) Gen.optStrictReader = false := by
+  have h1 : roGetStrict Gen.optStrictOverride Gen.optStrictOverride = true := by decide
+  have h2 : roGetStrict Gen.optStrictOverride Gen.optStrictReader = false := by decide
+  have h3 : roGetStrict (Gen.optStrictOverride ||| Gen.optStrictCompaction) Gen.optStrictOverride = true := by decide
+  have h4 : roGetStrict (Gen.optStrictOverride ||| Gen.optStrictCompaction) Gen.optStrictReader = false := by decide
+  unfold getStrictRO compactionRO
+  cases h : getStrict o Gen.optStrictCompaction
+  · simp only [Bool.false_eq_true, if_false, h1, if_true, h2]
+  · simp only [if_true, h3, h4]
+
+theorem code_compaction_reader_shape : codeCompactionIterShape = true := by decide
+
 end GoLevel.C19Strict
 
 def GoLevel.C19Strict.theorems : List String :=
   ["GoLevel.C19Strict.recover_reader_never_strict", "GoLevel.C19Strict.recover_keeps_other_flags",
    "GoLevel.C19Strict.as_found_reader_strict_again", "GoLevel.C19Strict.code_recover_reader_never_strict",
-   "GoLevel.C19Strict.flags_are_bits"]
+   "GoLevel.C19Strict.flags_are_bits", "GoLevel.C19Strict.compaction_reader_strict_iff",
+   "GoLevel.C19Strict.default_compaction_reader_strict", "GoLevel.C19Strict.compaction_flag_instead_of_reader_never_strict",
+   "GoLevel.C19Strict.code_compaction_reader_shape"]
